@@ -84,6 +84,11 @@ impl super::Authorizer {
             };
 
             let mut block = proto_snapshot_block_to_token_block(block)?;
+            // a snapshot stores every block, third-party ones included, translated to the
+            // snapshot's own symbol table
+            if block.external_key.is_some() {
+                block.symbols = token_symbols.clone();
+            }
 
             if let Some(key) = block.external_key.as_ref() {
                 public_key_to_block_id
